@@ -137,7 +137,7 @@ impl Engine for C18 {
     }
     fn budget(&self, tier: Tier) -> (u32, u32) {
         match tier {
-            Tier::Quick => (16, 4000),
+            Tier::Quick => (16, 12000),
             Tier::Thorough => (16, 100000),
         }
     }
